@@ -30,7 +30,7 @@ class Scripted(Env):
     if jp.issubdtype(rng.dtype, jax.dtypes.prng_key):
       rng = jax.random.key_data(rng)
     mask = rng[-1].astype(jp.uint32)
-    tag = (rng[0].astype(jp.uint32) % 1000).astype(jp.float32)
+    tag = (rng[0].astype(jp.uint32) % 1000).astype(jp.zeros(()).dtype)
     ps = base.State(q=jp.zeros(1), qd=jp.zeros(1), x=base.Transform.zero((1,)),
                     xd=base.Motion.zero((1,)), contact=None)
     info = {'n': jp.zeros((), jp.int32), 'mask': mask, 'tag': tag}
@@ -42,8 +42,9 @@ class Scripted(Env):
     n = state.info['n']
     t = state.pipeline_state.q[0] + 1
     bit = (n % self.period).astype(jp.uint32)
-    done = ((state.info['mask'] >> bit) & 1).astype(jp.float32)
-    reward = (n + 1).astype(jp.float32)
+    ftype = state.reward.dtype  # float32, or float64 under jax_enable_x64
+    done = ((state.info['mask'] >> bit) & 1).astype(ftype)
+    reward = (n + 1).astype(ftype)
     ps = state.pipeline_state.replace(q=jp.array([t]))
     info = dict(state.info)
     info['n'] = n + 1
